@@ -22,6 +22,9 @@ RULE = ('(a) draw signatures: every random-consuming API (rand/randn/normal/rand
         '(bit-identical value and gradients) and sweeps the first graph once more; and (e) trains BatchNorm1d/2d models (momentum None = cumulative average in every program, numeric momenta incl. 0 and 1, track_running_stats / affine on and off) for 4 steps with 0 / a / b read-only '
         'interludes after each step (eval-mode forwards with and without no_grad, validation passes, Trainer.test, Evaluator; drawn per program): final parameters, running statistics, the batch counter and predictions must not depend on the number of interludes. '
         'Both are compared INSIDE the run (a dependence on the repetition count is the same in every run) and enter the hash. '
+        '(f) DEGENERATE LAYER GEOMETRIES: Linear / Neuron / Conv1d / Conv2d / BatchNorm1d / BatchNorm2d with every extent (features, channels, kernel extents) in {0, 1} (quick) / {0, 1, 2} (thorough) exhaustively plus random ones, '
+        'bias / affine on and off, constructed and reset_parameters() called 0..2 more times: the draw signature of every stage equals the model, and parameters after every stage, the next draw, a forward and a backward pass '
+        'are bit-identical under 5 allocation histories (freed small buffers and np.empty contents filled with 0 / 7 / nan / -1e30 / a denormal by the harness). '
         'Non-trivial: a program that draws from >= 3 different APIs and trains.')
 EXHAUSTIVE = {'quick': False, 'thorough': False}
 ASSUMPTIONS = ['NumPy generators and BLAS are deterministic given the same state and inputs (not modelled)']
@@ -51,6 +54,7 @@ def cases(rng, tier):
         out.append({'kind': 'sig', 'api': 'dropout', 'args': [n, tr], 'lines': [f'rng dropout {n} {int(tr)}']})
         n, sh_ = rng.randint(0, 9), rng.chance(.6)
         out.append({'kind': 'sig', 'api': 'split', 'args': [n, sh_], 'lines': [f'rng split {n} {int(sh_)}']})
+    out += _geom_cases(rng, tier)
     nprog = 6 if tier == 'quick' else 40
     for k in range(nprog):       # boundary seeds first
         out.append({'kind': 'prog', 'seed': [0, 1, 2 ** 32 - 1][k] if k < 3 else rng.randrange(2 ** 31), 'variant': rng.randrange(4), 'hashseeds': 6 if tier == 'quick' else 12, 'lines': ['rng dropout 1 0']})
@@ -67,6 +71,122 @@ def cases(rng, tier):
         c['desc'] = {k: (v if k != 'rep' else dict(v, subs=f"{len(v['subs'])} sub-computations")) for k, v in c.items() if k != 'lines'}
     _FAULT_BATCH[:] = [c for c in out if c.get('faults')]
     return out
+
+
+GEOM_LAYERS = {'linear': 2, 'neuron': 1, 'conv1d': 3, 'conv2d': 4, 'batchnorm1d': 1, 'batchnorm2d': 1}      # layer with parameters -> number of extents
+POISONS = (0.0, 7.0, float('nan'), -1e30, 3e-41)
+
+
+def _geom_line(api, dims, flag):
+    """the model's line for constructing the layer (reset_parameters() called again = the same draws again = the same line again)"""
+    if api == 'neuron': return f'rng linear {dims[0]} 1 {int(flag)}'
+    if api.startswith('batchnorm'): return f'rng init_const {show_ints([dims[0]])}'       # ones_ / zeros_: no draw
+    return f"rng {api} {' '.join(str(d) for d in dims)} {int(flag)}"
+
+
+def _geom_cases(rng, tier):
+    """DEGENERATE LAYER GEOMETRIES: every layer class with parameters, every extent (features / channels / kernel extents) in
+    {0, 1} exhaustively (quick) / {0, 1, 2} (thorough) plus random larger ones, bias / affine on and off, constructed and then
+    reset_parameters() called 0..2 more times. Observed: the draw signature of every stage (construction, each reset) against the
+    model, and that parameters after each stage, the generator state afterwards, a forward / backward pass through the layer are
+    bit-identical under different allocation histories (freed buffers / np.empty contents differ per history)."""
+    import itertools
+    out = []
+    vals = (0, 1) if tier == 'quick' else (0, 1, 2)
+    for api, nd in GEOM_LAYERS.items():
+        combos = [list(t) for t in itertools.product(vals, repeat=nd)]
+        for _ in range(4 if tier == 'quick' else 40):
+            combos.append([rng.pick([0, 1, 1, 2, 3, 5]) for _ in range(nd)])
+        for dims in combos:
+            for flag in (True, False):
+                if api == 'neuron' and not flag: continue      # Neuron has no bias switch
+                resets = rng.randrange(3)
+                out.append({'kind': 'sig', 'api': api, 'geom': True, 'args': list(dims) + [flag], 'resets': resets, 'seed': rng.randrange(2 ** 31),
+                            'lines': [_geom_line(api, dims, flag)] * (1 + resets)})
+    return out
+
+
+def _geom_build(nn, api, a):
+    d, flag = a[:-1], a[-1]
+    if api == 'linear': return nn.Linear(d[0], d[1], bias=flag)
+    if api == 'neuron': return nn.Neuron(d[0])
+    if api == 'conv1d': return nn.Conv1d(d[0], d[1], d[2], bias=flag)
+    if api == 'conv2d': return nn.Conv2d(d[0], d[1], (d[2], d[3]), bias=flag)
+    if api == 'batchnorm1d': return nn.BatchNorm1d(d[0], affine=flag)
+    if api == 'batchnorm2d': return nn.BatchNorm2d(d[0], affine=flag)
+    raise ValueError(api)
+
+
+def _geom_input(api, a):
+    d = a[:-1]
+    return {'linear': (2, d[0]), 'neuron': (2, d[0]), 'conv1d': (2, d[0], 3), 'conv2d': (2, d[0], 3, 2), 'batchnorm1d': (3, d[0]), 'batchnorm2d': (2, d[0], 2, 2)}[api]
+
+
+def _geom_probe(c):
+    """the layer of the case built, reset and run once per allocation history; returns None when all histories agree bit for
+    bit, else a description of the first observation that differs. A history = short-lived float32 buffers of small sizes filled
+    with a value and freed just before, and np.empty / np.empty_like handing out buffers filled with that value (an
+    uninitialised buffer has arbitrary contents: the harness chooses them)."""
+    sg = common.impl()
+    from synapgrad import nn
+    api, a = c['api'], c['args']
+    orig = (np.empty, np.empty_like)
+    runs = []
+    for fill in POISONS:
+        def poisoned(f, fill=fill):
+            def g(*ar, **kw):
+                r = f(*ar, **kw)
+                if r.dtype.kind == 'f': r.fill(fill)
+                return r
+            return g
+        junk = [np.full(n, fill, dtype=np.float32) for n in range(1, 10) for _ in range(3)]
+        del junk
+        np.empty, np.empty_like = poisoned(orig[0]), poisoned(orig[1])
+        obs = []
+        def add(k, f):
+            try:
+                v = f()
+                obs.append((k, 'none' if v is None else f'{v.dtype}{v.shape}:' + np.ascontiguousarray(v).tobytes().hex()[:400]))
+            except Exception as e:
+                obs.append((k, 'raises:' + type(e).__name__))
+        try:
+            with common.quiet():
+                sg.manual_seed(c.get('seed', 0))
+                try: m = _geom_build(nn, api, a)
+                except Exception as e: m = None; obs.append(('construct', 'raises:' + type(e).__name__))
+                if m is not None:
+                    def params(stage):
+                        ps = m.parameters()
+                        obs.append((f'{stage}: number of parameters', str(len(ps))))
+                        for i, p_ in enumerate(ps): add(f'{stage}: parameter {i} ({getattr(p_, "name", "")})', lambda: np.array(p_.data))
+                    params('after construction')
+                    for r in range(c.get('resets', 0) + 1):        # (one more reset than the signature stages: the probe always resets)
+                        try: m.reset_parameters()
+                        except Exception as e: obs.append((f'reset_parameters() #{r + 1}', 'raises:' + type(e).__name__))
+                        params(f'after reset_parameters() #{r + 1}')
+                    add('next draw of the seeded generator', lambda: np.random.rand(2))
+                    shp = _geom_input(api, a)
+                    x = sg.Tensor(np.linspace(-1, 1, int(np.prod(shp))).reshape(shp).astype(np.float32), requires_grad=True)
+                    ys = []
+                    def fwd():
+                        y = m(x); ys.append(y)
+                        return np.array(y.data)
+                    add('forward', fwd)
+                    if ys:
+                        def bwd():
+                            ys[0].sum().backward(); return None if x._grad is None else np.array(x._grad)
+                        add('backward: input gradient', bwd)
+                        for i, p_ in enumerate(m.parameters()): add(f'backward: gradient of parameter {i}', lambda: None if p_._grad is None else np.array(p_._grad))
+        finally:
+            np.empty, np.empty_like = orig
+        runs.append(obs)
+    for fill, r in zip(POISONS[1:], runs[1:]):
+        if [k for k, _ in r] != [k for k, _ in runs[0]]:
+            return f'the observations themselves differ between allocation histories: {[k for k, _ in runs[0]]} vs {[k for k, _ in r]}'
+        for (k, v0), (_, v) in zip(runs[0], r):
+            if v0 != v:
+                return f'{k}: {v0[:120]} (freed / uninitialised buffers held {POISONS[0]}) vs {v[:120]} (they held {fill})'
+    return None
 
 
 REPEAT_SUBS = ('MSELoss', 'MSELoss/sum', 'NLLLoss', 'BCELoss', 'BCEWithLogitsLoss', 'CrossEntropyLoss', 'CrossEntropyLoss/none', 'F.cross_entropy', 'Linear', 'Linear/no-bias', 'Neuron', 'Flatten', 'Dropout/train',
@@ -112,7 +232,15 @@ def _signature(c):
     try:
         api = c['api']
         sh = c.get('shape')
-        if api == 'rand': sg.rand(*sh)
+        if c.get('geom'):
+            from synapgrad import nn as nn_
+            m = _geom_build(nn_, api, c['args'])
+            marks = [len(log)]
+            for _ in range(c.get('resets', 0)):
+                m.reset_parameters(); marks.append(len(log))
+            show = lambda l: ','.join(f'{f}:{n}' for f, n in l) or '_'
+            return [show(log[(marks[i - 1] if i else 0):marks[i]]) for i in range(len(marks))]
+        elif api == 'rand': sg.rand(*sh)
         elif api == 'randn': sg.randn(*sh)
         elif api == 'normal': sg.normal(0.0, 1.0, *sh)
         elif api == 'randint': sg.randint(0, 5, tuple(sh))
@@ -555,6 +683,12 @@ def _hashes(c):
 
 
 def impl(c):
+    if c['kind'] == 'sig' and c.get('geom'):
+        sigs = outcome(lambda: _signature(c))
+        if sigs == 'rejected': return ['rejected'] * len(c['lines'])
+        bad = outcome(lambda: _geom_probe(c))
+        if bad: sigs = [sigs[0] + '|depends-on-allocation-history'] + sigs[1:]
+        return sigs
     if c['kind'] == 'sig':
         return [outcome(lambda: _signature(c))]
     hs = outcome(lambda: _hashes(c))
@@ -588,7 +722,7 @@ def _repeat_diffs(hs):
 
 
 def nontrivial(c):
-    return c['kind'] == 'prog' or c['api'] in ('linear', 'conv1d', 'conv2d', 'dropout', 'split')
+    return c['kind'] == 'prog' or c['api'] in ('linear', 'conv1d', 'conv2d', 'dropout', 'split') or bool(c.get('geom'))
 
 
 def distribution(cases):
@@ -596,6 +730,12 @@ def distribution(cases):
     for c in cases:
         k = c['kind'] + ':' + c.get('api', f"variant{c.get('variant')}") + ('+faults' if c.get('faults') else '')
         d[k] = d.get(k, 0) + 1
+        if c.get('geom'):
+            ext = c['args'][:-1]
+            for k in (f"layer geometry: {c['api']} " + ('with a zero extent' if 0 in ext else 'all extents 1' if set(ext) == {1} else 'other'),
+                      f"layer geometry: reset_parameters() called {c['resets']} more time(s)", f"layer geometry: bias/affine={c['args'][-1]}",
+                      f'layer geometry: {len(POISONS)} allocation histories per layer (parameters, next draw, forward, backward bit-compared)'):
+                d[k] = d.get(k, 0) + 1
         for f in c.get('faults', []):
             d[f'fault survived: {f}'] = d.get(f'fault survived: {f}', 0) + 1
         r = c.get('rep')
@@ -612,6 +752,15 @@ def distribution(cases):
 
 
 def oracle(c):
+    if c['kind'] == 'sig' and c.get('geom'):
+        cc = {k: v for k, v in c.items() if not k.startswith('_') and k not in ('lines', 'desc')}
+        bad = outcome(lambda: _geom_probe(c))
+        if bad:
+            d, flag = c['args'][:-1], c['args'][-1]
+            return {'key': {'cls': 'layer-depends-on-allocation-history', 'api': c['api']}, 'case': cc,
+                    'what': f"after manual_seed({c.get('seed', 0)}), {c['api']} with extents {d} ({'affine' if c['api'].startswith('batchnorm') else 'bias'}={flag}), constructed and reset_parameters() called again, "
+                            f"is not bit-identical from run to run - it depends on what freed / uninitialised buffers contain: {bad}"}
+        return None
     if c['kind'] == 'sig':
         s = outcome(lambda: _signature(c))
         if s == 'rejected':
